@@ -255,9 +255,18 @@ class InternalRunAdapter(ABC):
         tasks = all_tasks(all_named)
         if not tasks:
             return WaitForNextTaskResult(None, started)
-        done, _ = await asyncio.wait(
-            tasks, timeout=timeout, return_when=asyncio.FIRST_COMPLETED
-        )
+        try:
+            done, _ = await asyncio.wait(
+                tasks, timeout=timeout, return_when=asyncio.FIRST_COMPLETED
+            )
+        except asyncio.CancelledError:
+            # The caller learns about the tasks started above only from the
+            # result of this call. If the run is cancelled while waiting here
+            # (abort, hard cancel), nobody else can stop them: they would keep
+            # executing step code after the run is gone.
+            for named in started:
+                named.task.cancel()
+            raise
         completed = pick_highest_priority(all_named, done) if done else None
         return WaitForNextTaskResult(completed, started)
 
